@@ -43,13 +43,64 @@ def read_rows(path, extra=0):
     return hdr, out
 
 
-def build_formats(case):
+def _populate(ids, shape, pts):
+    """a declared-shape tensor with a few stored elements (values go through the shared value modes)"""
     from fibertree import Tensor
+    import ftutil as FU
+    t = Tensor(rank_ids=list(ids), shape=list(shape))
+    root = t.getRoot()
+    for p in pts:
+        ref = root.getPayloadRef(*p)
+        ref += FU.dress(1 + sum(p))
+    if FU.MODE.get("touch"):
+        FU.touch(root)
+        t.getShape()
+    return t
+
+
+def build_tensor(ti, t):
+    """The tensor a Format is built on.  The traffic models take formats[t].tensor.getShape(authoritative=
+    True)[rank] as the boundary between real storage and the insertion staging area; the model gets that
+    shape as an input, so every way of building the tensor must give the declared shape:
+      0 declared directly (empty)          1 / 2 swizzleRanks from a source rotated left / right
+      3 fromFiber(other.getRoot())         4 fromFiber(other.getRoot(), shape=...)
+      5 Tensor(rank_ids, shape).setRoot(other.getRoot())"""
+    from fibertree import Tensor
+    import ftutil as FU
+    ids = [rname(k) for k in t["ranks"]]
+    shape = list(t["shape"])
+    n = len(ids)
+    path = t.get("build", 0)
+    pts = [tuple(p) for p in t.get("pts", [])] or [tuple(0 for _ in shape), tuple(s - 1 for s in shape)]
+    name = "T%d" % ti
+    if path == 0:
+        T = Tensor(rank_ids=ids, shape=shape, name=name)
+    elif path in (1, 2):
+        perm = (list(range(1, n)) + [0]) if path == 1 else ([n - 1] + list(range(0, n - 1)))
+        src = _populate([ids[k] for k in perm], [shape[k] for k in perm],
+                        [tuple(p[k] for k in perm) for p in pts])
+        T = src.swizzleRanks(rank_ids=ids)
+        T.setName(name)
+    else:
+        z = _populate(ids, shape, pts)
+        if path == 3:
+            T = Tensor.fromFiber(rank_ids=ids, fiber=z.getRoot(), name=name)
+        elif path == 4:
+            T = Tensor.fromFiber(rank_ids=ids, fiber=z.getRoot(), shape=shape, name=name)
+        else:
+            T = Tensor(rank_ids=ids, shape=shape, name=name)
+            T.setRoot(z.getRoot())
+    if FU.MODE.get("touch"):
+        FU.touch(T.getRoot())
+        T.getShape()
+    return T
+
+
+def build_formats(case):
     from fibertree.model.format import Format
     formats = {}
     for ti, t in enumerate(case["tensors"]):
-        ids = [rname(k) for k in t["ranks"]]
-        T = Tensor(rank_ids=ids, shape=list(t["shape"]), name="T%d" % ti)
+        T = build_tensor(ti, t)
         spec = {}
         for k in t["ranks"]:
             s = {"format": "C", "cbits": 0, "pbits": 0}
